@@ -202,11 +202,28 @@ impl PathRequireMode {
             }
         };
 
-        if self.is_module_folder_name(&generated_path) {
-            generated_path.pop();
-        } else if matches!(generated_path.extension(), Some(extension) if extension == "lua" || extension == "luau")
+        let mut short_path = generated_path.clone();
+        if self.is_module_folder_name(&short_path) {
+            short_path.pop();
+        } else if matches!(short_path.extension(), Some(extension) if extension == "lua" || extension == "luau")
         {
-            generated_path.set_extension("");
+            short_path.set_extension("");
+        }
+
+        // only drop the module folder name or the extension if the shorter path still finds
+        // the same file (another file can come first in the resolution order)
+        if short_path != generated_path {
+            let found =
+                RequirePathLocator::new(self, context.project_location(), context.resources())
+                    .find_require_path(
+                        utils::normalize_path_with_current_dir(&short_path),
+                        context.current_path(),
+                    );
+
+            if matches!(&found, Ok(found) if utils::normalize_path(found) == utils::normalize_path(require_path))
+            {
+                generated_path = short_path;
+            }
         }
 
         path_utils::write_require_path(&generated_path).map(generate_require_arguments)
